@@ -140,6 +140,33 @@ def focus_holding(case, rnd):
     return case
 
 
+def focus_blocks(case, rnd):
+    """several time blocks inside the window, start level above end level, no MIP options: every block after the first
+    starts from the END level, so selling early in a block is limited by it"""
+    a = case['args']
+    g = case['grid']
+    if g['step_s'] > 4 * 3600 or g['T_nominal'] < 4:
+        return case
+    size = max(1.0, float(a.get('size', 4.0)))
+    a['size'] = size
+    k = rnd.choice([2, 2, 3, 4])
+    tot = g['step_s'] * k
+    a['block_size'] = ('%dmin' % (tot // 60)) if tot % 3600 else ('%dh' % (tot // 3600))
+    a['start_level'] = gen.q8(rnd, size / 2, size)
+    a['end_level'] = gen.q8(rnd, 0, size / 4)
+    for o in ('no_simult_in_out', 'max_store_duration', 'start', 'end'):
+        a.pop(o, None)
+    if a.get('cap_out', 0) == 0:
+        a['cap_out'] = 1.0
+    case['features'] = [f for f in case.get('features', []) if not f.startswith('window:')] + ['window:none', 'focus:blocks']
+    # selling is attractive at the beginning of the horizon and of every block
+    for key in list(case['prices']):
+        if key.startswith('m_'):
+            T = len(case['prices'][key])
+            case['prices'][key] = [(18.0 if t % k == 0 else 2.0) + gen.q8(rnd, 0, 1) for t in range(T)]
+    return case
+
+
 def features(case):
     a = case['args']
     f = list(case.get('features', []))
